@@ -171,7 +171,12 @@ func exhaustiveMalformed(c *Config, t0, n0 int) {
 		for pos := -1; pos <= length+1; pos++ {
 			for del := -1; del <= length+1; del++ {
 				for ins := -1; ins <= 1; ins++ {
-					runCase(c, "exbad", t0, n0, append(append([]op{}, prefix...), op{t0 + 1, pos, ins, del}))
+					kind := "exbad"
+					if ins == 0 && del == 0 && pos > length {
+						// the known finding F18 (an empty request beyond the end is not rejected) has its own kind
+						kind = "exbad-emptybeyond"
+					}
+					runCase(c, kind, t0, n0, append(append([]op{}, prefix...), op{t0 + 1, pos, ins, del}))
 				}
 			}
 		}
@@ -412,9 +417,9 @@ func malformedCase(c *Config) {
 			runCase(c, "malformed", t0, n0, ops)
 			return
 		}
-	case 10: // an empty request, possibly beyond the end
+	case 10: // an empty request at the end (in range: a no-op)
 		ins, del = 0, 0
-		pos = n + r.Intn(3)
+		pos = n
 	case 11: // the wrapped values of F12: pos+del = 2^32 + something small
 		del = 1<<32 + r.Intn(n+1) - pos
 		if r.Intn(2) == 0 {
@@ -427,8 +432,37 @@ func malformedCase(c *Config) {
 		pos = n
 		del = 1 + r.Intn(2)
 	}
+	if ins == 0 && del == 0 && pos > n {
+		ins = 1 // empty requests beyond the end (known finding F18) are generated by emptyBeyondCase only
+	}
 	ops = append(ops, op{t, pos, ins, del}, op{21, 0, 1, 0})
 	runCase(c, "malformed", t0, n0, ops)
+}
+
+// emptyBeyondCase: a valid random prefix, then an empty request (ins = del = 0) at a position beyond the end,
+// then one more valid operation.  The only generator (with exbad-emptybeyond) of the known finding F18.
+func emptyBeyondCase(c *Config) {
+	r := c.Rng
+	g := &gen{c: c}
+	n0 := r.Intn(30)
+	t0 := r.Intn(10)
+	tr, _ := newTracked(t0, n0)
+	var ops []op
+	for k := r.Intn(6); k > 0; k-- {
+		o := g.randomOp(tr.file.VerifFlatten(), 10+k)
+		ops = append(ops, o)
+		tr.step(o)
+	}
+	n := tr.file.Len()
+	pos := n + 1 + r.Intn(5)
+	switch r.Intn(6) {
+	case 0:
+		pos = maxU32
+	case 1:
+		pos = n + 1 + r.Intn(1<<20)
+	}
+	ops = append(ops, op{20, pos, 0, 0}, op{21, 0, 1, 0})
+	runCase(c, "malformed-emptybeyond", t0, n0, ops)
 }
 
 // huge files: keys near 2^32 (the uint32 boundary), all requests in range; the lines are not materialised
@@ -491,7 +525,11 @@ func main() {
 			}
 			t0, _ := cs.Field("t0")
 			n0, _ := cs.Field("n0")
-			runCase(c, "replay", t0.Args()[0].Int(), n0.Args()[0].Int(), ops)
+			kind := "replay"
+			if k, ok := cs.Field("kind"); ok && len(k.Args()) > 0 && strings.HasSuffix(k.Args()[0].Atom, "-emptybeyond") {
+				kind = "replay-emptybeyond" // the dedicated kinds of the known finding F18 keep their suffix
+			}
+			runCase(c, kind, t0.Args()[0].Int(), n0.Args()[0].Int(), ops)
 		}
 		return
 	}
@@ -515,5 +553,8 @@ func main() {
 	}
 	for i := c.Count(500, 10000); i > 0; i-- {
 		hugeCase(c)
+	}
+	for i := c.Count(200, 1000); i > 0; i-- {
+		emptyBeyondCase(c)
 	}
 }
